@@ -1,5 +1,104 @@
 package main
 
+import (
+	"encoding/json"
+	"flag"
+	"fmt"
+	"os"
+	"path/filepath"
+	"strings"
+)
+
 // tryReplay attempts to run the solver's counterexample against the real code.
 // It returns the tail of the VIOLATION line ("" when no replay is available).
+// Models over the heap encoding are not translated into Go inputs (DESIGN §8),
+// so there is nothing to run: the replay file carries the obligation instead.
 func tryReplay(o *checkOpts, r *Result, body map[string]any) string { return "" }
+
+// cmdReplay re-decides one recorded violation: it reads a replay file,
+// (1) re-runs the SMT text stored in it on the solvers, so that the recorded
+// answer can be reproduced without the source tree, and (2) regenerates the
+// obligation of that name from /repo's current working tree and reports
+// whether it is still undischarged. Exit 1 with a VIOLATION line if it is.
+func cmdReplay(args []string) int {
+	fs := flag.NewFlagSet("replay", flag.ExitOnError)
+	prop := fs.String("prop", "", "property id")
+	file := fs.String("file", "", "replay file written by a check")
+	repo := fs.String("repo", envOr("VERIF_REPO", "/repo"), "repository")
+	verif := fs.String("verif", envOr("VERIF_DIR", "/verif"), "verif dir")
+	fs.Parse(args)
+	data, err := os.ReadFile(*file)
+	if err != nil {
+		fmt.Fprintln(os.Stderr, "replay:", err)
+		return 2
+	}
+	var body map[string]any
+	if err := json.Unmarshal(data, &body); err != nil {
+		fmt.Fprintln(os.Stderr, "replay:", err)
+		return 2
+	}
+	name, _ := body["obligation"].(string)
+	if p, _ := body["property"].(string); *prop == "" {
+		*prop = p
+	}
+	fmt.Printf("replay: property %s, obligation %s (%v)\n", *prop, name, body["kind"])
+	// (1) the stored query
+	if out, _ := body["solver_output"].(string); strings.Contains(out, ";;;; SMT\n") {
+		smt := out[strings.Index(out, ";;;; SMT\n")+len(";;;; SMT\n"):]
+		dir, _ := os.MkdirTemp("", "govc-replay-")
+		defer os.RemoveAll(dir)
+		f := filepath.Join(dir, "stored.smt2")
+		os.WriteFile(f, []byte(smt), 0o644)
+		for _, s := range solvers {
+			st, _, secs := runSolver(s, 20, f)
+			fmt.Printf("replay: stored query on %-6s: %s (%.1fs)  [unsat would mean the obligation holds]\n", s.name, st, secs)
+		}
+	}
+	if fi, _ := body["failing_input"].(string); fi != "" {
+		fmt.Printf("replay: recorded failing input: %s\n", fi)
+	}
+	// (2) the obligation on the current tree
+	o := &checkOpts{repo: *repo, verif: *verif, prop: *prop, tier: "quick", quiet: true, noEvidence: true}
+	out, err := runCheck(o)
+	if err != nil {
+		fmt.Printf("VIOLATION property=%s replay=%s obligation=load no-failing-input-found\n", *prop, *file)
+		return 1
+	}
+	if *prop == "C05" && strings.HasPrefix(name, "bounded:") {
+		sd := runLiteralStandin(o)
+		if !sd.OK {
+			fmt.Printf("VIOLATION property=%s replay=%s obligation=%s failing-input=%s (bounded stand-in run on the real code)\n", *prop, *file, name, sd.Failing)
+			return 1
+		}
+		fmt.Printf("replay: %s passes on the current tree: %s\n", name, sd.Summary)
+		return 0
+	}
+	failing := false
+	for _, r := range out.violations {
+		if r.Obl.Name == name {
+			failing = true
+		}
+	}
+	for _, r := range out.vacuous {
+		if r.Obl.Name == name {
+			failing = true
+		}
+	}
+	for _, f := range out.frame {
+		if f.Name == name && !f.OK {
+			failing = true
+			fmt.Printf("replay: %s\n", f.Detail)
+		}
+	}
+	for _, b := range out.binding {
+		if "binding:"+strings.SplitN(b, ":", 2)[0] == name {
+			failing = true
+		}
+	}
+	if failing {
+		fmt.Printf("VIOLATION property=%s replay=%s obligation=%s no-failing-input-found\n", *prop, *file, name)
+		return 1
+	}
+	fmt.Printf("replay: obligation %s is discharged on the current tree\n", name)
+	return 0
+}
